@@ -25,6 +25,7 @@ import (
 	"github.com/aws/aws-sdk-go-v2/credentials"
 	"github.com/aws/aws-sdk-go-v2/service/s3"
 	"github.com/aws/smithy-go/middleware"
+	smithyhttp "github.com/aws/smithy-go/transport/http"
 )
 
 func (s *S3Proxy) getClientWithCtx(ctx context.Context) (*s3.Client, error) {
@@ -72,4 +73,18 @@ func (s *S3Proxy) getConfig(ctx context.Context, access, secret string) (aws.Con
 	}
 
 	return config.LoadDefaultConfig(ctx, opts...)
+}
+
+// removeDefaultContentType drops the Content-Type the sdk serializer adds
+// by itself (application/octet-stream) to a payload the client sent without
+// one, so that the proxied endpoint stores the object the way the client
+// described it.
+func removeDefaultContentType(stack *middleware.Stack) error {
+	return stack.Build.Add(middleware.BuildMiddlewareFunc("removeDefaultContentType",
+		func(ctx context.Context, in middleware.BuildInput, next middleware.BuildHandler) (middleware.BuildOutput, middleware.Metadata, error) {
+			if req, ok := in.Request.(*smithyhttp.Request); ok && smithyhttp.GetIsContentTypeDefaultValue(ctx) {
+				req.Header.Del("Content-Type")
+			}
+			return next.HandleBuild(ctx, in)
+		}), middleware.After)
 }
